@@ -425,3 +425,34 @@ Fixpoint mclose (eps : Qc) (a b : mfield) : bool :=
       | None => false end && mclose eps r s
   | _, _ => false
   end.
+
+(* ---------- round-6 extension: MultiField.s_sum and MultiField (op) scalar ---------- *)
+(* MultiField.s_sum (multi_field.py:236-244):
+     return utilities.my_sum(map(lambda v: v.s_sum(), self._val))
+   utilities.my_sum = reduce(lambda x, y: x+y, iterable): a LEFT fold starting from the first entry;
+   Field.s_sum = self.sum().val = the sum over every pixel of every sub-domain = [tsum_all].
+   [ms_sum_loop] is the left fold with the accumulator; an empty MultiField makes reduce() raise
+   TypeError (None here). *)
+Fixpoint ms_sum_loop (a : mfield) (acc : C) : C :=
+  match a with
+  | [] => acc
+  | x :: r => ms_sum_loop r (cadd acc (tsum_all (erank x) (eval_ x)))
+  end.
+Definition ms_sum (a : mfield) : option C :=
+  match a with
+  | [] => None
+  | x :: r => Some (ms_sum_loop r (tsum_all (erank x) (eval_ x)))
+  end.
+
+(* MultiField._binary_op, scalar branch (multi_field.py:403-411):
+     else: val = tuple(f(v1, other) for v1 in self._val);  return MultiField(self._domain, val)
+   with Field._binary_op's scalar branch = broadcast ([binop_scalar]). *)
+Definition mbinop_scalar (f : C -> C -> C) (a : mfield) (c : C) : mfield :=
+  map (fun x => mkEnt (ekey x) (erank x) (edom x) (binop_scalar (erank x) f (eval_ x) c)) a.
+
+(* the plain (order-free) total: sum over the entries of the sums over their pixels *)
+Fixpoint mtotal (a : mfield) : C :=
+  match a with
+  | [] => c0
+  | x :: r => cadd (tsum_all (erank x) (eval_ x)) (mtotal r)
+  end.
